@@ -20,7 +20,7 @@ if [ -f "$OUT/HASH" ] && [ "$(cat $OUT/HASH)" = "$HASH" ] && [ -s "$OUT/marginfi
   echo "mirdump: up to date ($HASH)"; exit 0
 fi
 rm -f "$OUT/HASH"
-export CARGO_TARGET_DIR=$CACHE/mir-target CARGO_NET_OFFLINE=true
+export CARGO_TARGET_DIR=${VERIF_MIR_TARGET:-$CACHE/mir-target} CARGO_NET_OFFLINE=true
 FLAGS="-Zunpretty=mir -C debug-assertions=off -C overflow-checks=on"
 t0=$(date +%s)
 # force re-emission: cargo would skip rustc (and so the MIR output) for crates whose fingerprint is fresh
